@@ -21,7 +21,7 @@ def obligations(tier):
                       bounds="same writer twice, fresh writer, writer that wrote another set (same class name with other rules, unclosed span, 2 languages) before; selectors: caption layout, caption style, no/balanced/unclosed italics, identical timespans"))
         if not q:
             obs.append(ch(f"unchanged_full_{n}", "harness.C09_writers", timeout=T, functions=f, exhaustive=True,
-                          bounds="648 selector combinations (layout kinds per level, styles, document styles, identical timespans, italics)"))
+                          bounds="864 selector combinations (video size, layout kinds per level, caption style, two document-style variants, identical timespans, italics, relativize+fit on/off)"))
     obs.append(ch("hashseed_dfxp", "harness.C09_writers", timeout=T, functions=("pycaption.dfxp.base (every set display / comprehension / set() call rewritten to NondetSet)", "DFXPWriter.write", "RegionCreator"),
                   bounds="an arbitrary iteration order (2 solver-chosen picks) against insertion order for every set the DFXP module creates; captions whose nodes carry layouts out of 3 kinds each (styled and plain nodes), 2 languages"))
     return obs
